@@ -53,7 +53,9 @@ def run(ctx):
         "see the decoded content only, which is equal for the encodings compared); transactions are verified with the real "
         "ed25519 single signer over the real JSON signing format",
         "accepted = interceptor constructor succeeds and CheckValidity() returns nil; same content = the decoded object "
-        "re-marshals to the canonical bytes; size-check configurations: none (SizeCheckDelta = 0), 0, 10 (production), 100")
+        "re-marshals to the canonical bytes; size-check configurations: none (SizeCheckDelta = 0), 0, 10 (production), 100; boundary "
+        "mutants also 20 and under 7 wrapping histories of the shared marshalizer (wrap 10 then outer MaxUint32, reversed, "
+        "two wrappers of one base), built with the real NewSizeCheckUnmarshalizer")
     # ---- R1: every encoding of <= MaxRecs records over the small alphabet, intended design (hash of canonical content)
     runs = [(2, 0)] if q else [(2, 1), (3, 2)]
     table = collections.Counter()
@@ -101,7 +103,10 @@ def run(ctx):
     ctx.cov(traces_validated_against_impl=int(h.stats.get("mutants", 0)), evaluations=int(h.stats.get("evaluations", 0)),
             distinct_nontrivial=int(h.stats.get("distinct_type_class", 0)),
             malleable_signatures=int(h.stats.get("malleable_signatures", 0)),
-            prediction_mismatches=int(h.stats.get("drifts", 0)))
+            prediction_mismatches=int(h.stats.get("drifts", 0)),
+            wrapping_history_evaluations=int(h.stats.get("handle_evaluations", 0)))
+    if h.stats and int(h.stats.get("handle_evaluations", 0)) == 0:
+        ctx.broken.append("vacuous: no boundary mutant was run under the wrapping histories")
     # ---- binding self-test (thorough): a falsified prediction must be noticed by the replay
     if not q and g.ok and not h.broken:
         lines = open(mut).read().splitlines()
